@@ -174,6 +174,7 @@ package flags
 // q = positional arguments completed so far.
 //@ func (p *parseState) addArgs(args ...string) (err error)
 //@   props C03 C10 C04
+//@   traced
 //@   requires p != nil
 //@   loop 1 invariant 0 <= len(args) && len(args) <= len(old(args)) && same(args, old(args)[len(old(args))-len(args):])
 //@   loop 1 invariant 0 <= len(p.positional) && len(p.positional) <= len(old(p.positional)) && same(p.positional, old(p.positional)[len(old(p.positional))-len(p.positional):])
@@ -429,7 +430,7 @@ package flags
 //@   assigns s.positional, s.lookup, s.command
 
 //@ func (p *Parser) parseNonOption(s *parseState) (err error)
-//@   props C03 C08 C10 C04
+//@   props C03 C08 C10 C04 C06
 //@   requires s != nil && s.command != nil && lookupOK(s)
 //@   let cmd := s.lookup.commands[s.arg]
 //@   let sel := len(s.positional) == 0 && len(s.command.commands) > 0 && len(s.retargs) == 0
@@ -442,8 +443,10 @@ package flags
 //@   ensures[C08] sel && cmd != nil ==> subOf(cmd, c0) && answersTo(cmd, s.arg)
 //@   ensures[C07,C08] lookupOK(s)
 //@   ensures[C08,C04] sel && cmd == nil && !c0.SubcommandsOptional ==> isTyped(err, ErrUnknownCommand)
-//@   like[C03,C10] parseState.addArgs(s, []string{s.arg}) when !sel || (cmd == nil && c0.SubcommandsOptional)
-//@   like[C03,C10] parseState.addArgs(s, []string{s.arg}) noresult when sel && cmd == nil && !c0.SubcommandsOptional
+// (C06: a token arriving while a positional is pending goes to that positional - the queue whose count
+// constraints checkRequired evaluates is never dropped in favour of a subcommand of the same name)
+//@   like[C03,C10,C06] parseState.addArgs(s, []string{s.arg}) when !sel || (cmd == nil && c0.SubcommandsOptional)
+//@   like[C03,C10,C06] parseState.addArgs(s, []string{s.arg}) noresult when sel && cmd == nil && !c0.SubcommandsOptional
 //@   ensures !(sel && cmd != nil) ==> s.command == c0 && s.lookup == old(s.lookup) && c0.Active == old(c0.Active)
 //@   ensures same(s.args, old(s.args)) && s.arg == old(s.arg)
 //@   assigns s.positional, s.retargs, s.err, s.lookup, s.command, Command.Active
@@ -493,7 +496,7 @@ package flags
 //@ pure func okResult(p *Parser, r error) bool = r == nil || (isTyped(r, ErrUnknownFlag) && (p.Options&IgnoreUnknown != 0 || p.UnknownOptionHandler != nil))
 
 //@ func (p *Parser) ParseArgs(args []string) (rest []string, err error)
-//@   props C03 C04 C07 C09
+//@   props C03 C04 C07 C09 C10
 //@   requires p != nil
 //@   requires is(p.internalError, *Error) ==> as(p.internalError, *Error) != nil
 //@   let e0 := ncalls(Commander.Execute)
@@ -515,14 +518,21 @@ package flags
 //@   loop 2 invariant forall(k, old(ncalls(Parser.parseShort)), ncalls(Parser.parseShort), okResult(p, callres(Parser.parseShort, k, 0)))
 //@   loop 2 invariant p.Options&IgnoreUnknown != 0 ==> ncalls(Parser.UnknownOptionHandler) == old(ncalls(Parser.UnknownOptionHandler))
 //@   loop 2 invariant[C07] ncalls(Parser.UnknownOptionHandler) > old(ncalls(Parser.UnknownOptionHandler)) && calltime(Parser.UnknownOptionHandler, ncalls(Parser.UnknownOptionHandler) - 1) == clock() - 1 && s.err == nil ==> same(s.args, callres(Parser.UnknownOptionHandler, ncalls(Parser.UnknownOptionHandler) - 1, 0))
-//@   at[C03] call parseState.addArgs #2: !(p.Options&PassDoubleDash != 0 && arg == "--")
+//@   at[C03] call parseState.addArgs "s.arg": !(p.Options&PassDoubleDash != 0 && arg == "--")
 // (PassAfterNonOption: the pass-through tail starts at the first non-option word that is NOT a
 // subcommand name or alias of the command active at that point; such a name still switches commands)
-//@   at[C08,C03] call parseState.addArgs #2: p.Options&PassAfterNonOption != 0 && !argumentIsOption(arg) && s.lookup.commands[arg] == nil
+//@   at[C08,C03] call parseState.addArgs "s.arg": p.Options&PassAfterNonOption != 0 && !argumentIsOption(arg) && s.lookup.commands[arg] == nil
 //@   at[C08,C03] call Parser.parseNonOption #1: !argumentIsOption(arg) && (p.Options&PassAfterNonOption == 0 || s.lookup.commands[arg] != nil)
-//@   at[C03] call parseState.addArgs #4: !(p.Options&PassDoubleDash != 0 && arg == "--")
+//@   at[C03] call parseState.addArgs "arg": !(p.Options&PassDoubleDash != 0 && arg == "--")
 //@   at[C03] call Parser.parseNonOption #1: !(p.Options&PassDoubleDash != 0 && arg == "--")
 //@   loop 2 decreases len(s.args)
+// (C10: whatever is still unconsumed when the option loop stops without an error - the tail after the
+// "--" terminator or after the first non-option under PassAfterNonOption - went through addArgs, i.e.
+// through the positional queue, as one batch; the exception is the stop at an unknown command word, which
+// ends in estimateCommand's error)
+//@   loop 2 exit[C10,C03] s.err == nil && len(s.args) > 0 && (len(s.command.commands) == 0 || s.command.SubcommandsOptional) ==> ncalls(parseState.addArgs) > old(ncalls(parseState.addArgs))
+//@   loop 2 exit[C10,C03] s.err == nil && len(s.args) > 0 && (len(s.command.commands) == 0 || s.command.SubcommandsOptional) ==> callarg(parseState.addArgs, ncalls(parseState.addArgs) - 1, 0) == s
+//@   loop 2 exit[C10,C03] s.err == nil && len(s.args) > 0 && (len(s.command.commands) == 0 || s.command.SubcommandsOptional) ==> same(callarg(parseState.addArgs, ncalls(parseState.addArgs) - 1, 1), s.args)
 //@   loop 3 invariant s != nil && s.command != nil
 //@   loop 3 invariant ncalls(Command.fillParseState) > old(ncalls(Command.fillParseState)) && s.command == callarg(Command.fillParseState, ncalls(Command.fillParseState) - 1, 0)
 //@   loop 3 invariant s.err == nil ==> nfails(convert) == old(nfails(convert))
@@ -944,7 +954,7 @@ package flags
 //@ pure func unmet(p *parseState, a *Arg) bool = argDemanded(p, a) && (!isRem(a) || a.value.Len() < a.Required || (a.RequiredMaximum != -1 && a.value.Len() > a.RequiredMaximum))
 
 //@ func (p *parseState) checkRequired(parser *Parser) (err error)
-//@   props C06 C04 C15
+//@   props C06 C04 C15 C09
 //@   traced
 //@   requires p != nil && parser != nil && p.command != nil
 //@   let root := parser.Command
@@ -960,7 +970,7 @@ package flags
 //@   loop 3 invariant len(required) == 0 ==> forall(k, 0, cnt_1, noneMissingIn(activeAt(root, k), iterlen(Group.eachGroup, activeAt(root, k).Group))) && noneMissingIn(c, idx_2) && forall(i, 0, idx_3, !missingReq(g.options[i]))
 // (the converse, pointwise: whatever is reported as missing is a required, unset option of a group of the active chain)
 //@   at[C06] call append #1: missingReq(option) && option == g.options[idx_3] && g == groupAt(c, idx_2) && c == activeAt(root, cnt_1) && cnt_1 < chainLen(root)
-//@   loop 4 invariant[C06,C10] (len(reqnames) > 0) == exists(i, 0, idx_4, unmet(p, p.positional[i]))
+//@   loop 4 invariant[C06,C10,C09] (len(reqnames) > 0) == exists(i, 0, idx_4, unmet(p, p.positional[i]))
 //@   loop 5 invariant[C06] len(names) == idx_5 && forall(i, 0, idx_5, names[i] == reqItem(required[i]))
 //@   at[C06] call append #6: use(reqItem_def, k)
 //@   at[C06] call strings.Join #2: len(names) == len(required) && forall(i, 0, len(names), exists(j, 0, len(required), names[i] == reqItem(required[j]))) && forall(j, 0, len(required), exists(i, 0, len(names), names[i] == reqItem(required[j])))
@@ -968,7 +978,7 @@ package flags
 //@   ensures[C06] err != nil ==> isTyped(err, ErrRequired) && p.err == err
 //@   ensures[C06] err == nil ==> p.err == old(p.err)
 //@   ensures[C06] err == nil ==> forall(k, 0, chainLen(root), noneMissingIn(activeAt(root, k), iterlen(Group.eachGroup, activeAt(root, k).Group)))
-//@   ensures[C06,C10] err == nil ==> forall(i, 0, len(p.positional), !unmet(p, p.positional[i]))
+//@   ensures[C06,C10,C09] err == nil ==> forall(i, 0, len(p.positional), !unmet(p, p.positional[i]))
 // (not mechanised: the converse - an ErrRequired result implies that a required option of the
 // active chain or a demanded positional is really missing; the membership invariant needed for it
 // is unstable in the solvers)
@@ -1128,8 +1138,15 @@ package flags
 //@ pure func rankOf(o *Option, name string, hasMatcher bool) int = ite(hasMatcher && Group.optionByName.namematch(o, name), 4, ite(name == o.field.Name, 3, ite(name == longNameWithNS(o), 2, ite(o.ShortName != 0 && name == string(o.ShortName), 1, 0))))
 //@ pure func noBetterIn(gr *Group, upto int, name string, hasMatcher bool, prio int) bool = forall(i, 0, upto, rankOf(gr.options[i], name, hasMatcher) <= prio)
 
+// Among options of equal rank the FIRST one in pre-order wins (an option is only
+// replaced by one of strictly higher rank) - the reader resolves a key the
+// writer produced for a group's own option to that option, not to a
+// same-named one in a nested group (C12).  Written as a fold:
+//@ pure func rank0(o *Option, name string, hm bool) int = ite(o == nil, 0, rankOf(o, name, hm))
+//@ pure func bestOpt(cur *Option, opts []*Option, n int, name string, hm bool) *Option = ite(n <= 0, cur, ite(rankOf(opts[n-1], name, hm) > rank0(bestOpt(cur, opts, n-1, name, hm), name, hm), opts[n-1], bestOpt(cur, opts, n-1, name, hm)))
+//@ pure func bestGrp(root *Group, j int, name string, hm bool) *Option = ite(j <= 0, nil, bestOpt(bestGrp(root, j-1, name, hm), iterelem(Group.eachGroup, root, j-1, 0).options, len(iterelem(Group.eachGroup, root, j-1, 0).options), name, hm))
 //@ func (g *Group) optionByName(name string, namematch func(*Option, string) bool) (r *Option)
-//@   props C13 C04
+//@   props C13 C04 C12
 //@   requires g != nil
 //@   let root := g
 //@   let hm := namematch != nil
@@ -1138,6 +1155,9 @@ package flags
 //@   loop 2 invariant 0 <= prio && prio <= 4 && (prio == 0) == (retopt == nil) && (retopt != nil ==> rankOf(retopt, name, hm) == prio)
 //@   loop 2 invariant forall(j, 0, idx_1, noBetterIn(iterelem(Group.eachGroup, root, j, 0), len(iterelem(Group.eachGroup, root, j, 0).options), name, hm, prio))
 //@   loop 2 invariant noBetterIn(iterelem(Group.eachGroup, root, idx_1, 0), idx_2, name, hm, prio)
+//@   loop 1 invariant[C12,C13] unfold(bestGrp(root, idx_1 + 1, name, hm)) && unfold(bestGrp(root, 0, name, hm)) && retopt == bestGrp(root, idx_1, name, hm)
+//@   loop 2 invariant[C12,C13] unfold(bestOpt(bestGrp(root, idx_1, name, hm), iterelem(Group.eachGroup, root, idx_1, 0).options, idx_2 + 1, name, hm)) && unfold(bestOpt(bestGrp(root, idx_1, name, hm), iterelem(Group.eachGroup, root, idx_1, 0).options, 0, name, hm)) && retopt == bestOpt(bestGrp(root, idx_1, name, hm), iterelem(Group.eachGroup, root, idx_1, 0).options, idx_2, name, hm)
+//@   ensures[C12,C13] r == bestGrp(g, iterlen(Group.eachGroup, g), name, hm)
 //@   ensures[C13] r != nil ==> rankOf(r, name, hm) >= 1
 //@   ensures[C13] forall(j, 0, iterlen(Group.eachGroup, root), noBetterIn(iterelem(Group.eachGroup, root, j, 0), len(iterelem(Group.eachGroup, root, j, 0).options), name, hm, ite(r == nil, 0, rankOf(r, name, hm))))
 //@   assigns nothing
@@ -1845,7 +1865,7 @@ package flags
 //@ func (c commandList) Less(i int, j int) (r bool)
 //@   props C15 C20 C04
 //@   requires 0 <= i && i < len(c) && 0 <= j && j < len(c)
-//@   ensures[C15] r == (c[i].Name < c[j].Name)
+//@   ensures[C15,C20] r == (c[i].Name < c[j].Name)
 //@   assigns nothing
 //@ func (c commandList) Len() (r int)
 //@   props C15 C04
@@ -1961,8 +1981,8 @@ package flags
 //@   loop 1 invariant[C10] forall(J, 0, len(c.args), allocated(c.args[J]))
 //@   loop 1 invariant[C10] forall(J, 0, i, c.args[len(old(c.args)) + J] != nil)
 //@   loop 1 invariant[C10] forall(J, 0, i, c.args[len(old(c.args)) + J].value == realval.Field(J))
-//@   at[C06] call append #1: m.Get("required") != "" && len(strings.SplitN(m.Get("required"), "-", 2)) > 1 ==> arg.Required == ite(snd(strconv.ParseInt(strings.SplitN(m.Get("required"), "-", 2)[0], 10, 32)) == nil, int(fst(strconv.ParseInt(strings.SplitN(m.Get("required"), "-", 2)[0], 10, 32))), 1) && arg.RequiredMaximum == ite(snd(strconv.ParseInt(strings.SplitN(m.Get("required"), "-", 2)[1], 10, 32)) == nil, int(fst(strconv.ParseInt(strings.SplitN(m.Get("required"), "-", 2)[1], 10, 32))), -1)
-//@   at[C06] call append #1: m.Get("required") != "" && len(strings.SplitN(m.Get("required"), "-", 2)) <= 1 ==> arg.Required == ite(snd(strconv.ParseInt(m.Get("required"), 10, 32)) == nil, int(fst(strconv.ParseInt(m.Get("required"), 10, 32))), 1) && arg.RequiredMaximum == -1
+//@   at[C06] check append #1: m.Get("required") != "" && len(strings.SplitN(m.Get("required"), "-", 2)) > 1 ==> arg.Required == ite(snd(strconv.ParseInt(strings.SplitN(m.Get("required"), "-", 2)[0], 10, 32)) == nil, int(fst(strconv.ParseInt(strings.SplitN(m.Get("required"), "-", 2)[0], 10, 32))), 1) && arg.RequiredMaximum == ite(snd(strconv.ParseInt(strings.SplitN(m.Get("required"), "-", 2)[1], 10, 32)) == nil, int(fst(strconv.ParseInt(strings.SplitN(m.Get("required"), "-", 2)[1], 10, 32))), -1)
+//@   at[C06] check append #1: m.Get("required") != "" && len(strings.SplitN(m.Get("required"), "-", 2)) <= 1 ==> arg.Required == ite(snd(strconv.ParseInt(m.Get("required"), 10, 32)) == nil, int(fst(strconv.ParseInt(m.Get("required"), 10, 32))), 1) && arg.RequiredMaximum == -1
 //@   ensures[C10] forall(J, 0, len(old(c.args)), c.args[J] == old(c.args)[J])
 //@   loop 1 invariant 0 <= i && (old(c.ArgsRequired) ==> c.ArgsRequired) && (i > 0 && len(mtag.Get("required")) != 0 ==> c.ArgsRequired) && len(c.args) == len(old(c.args)) + i
 //@   loop 1 decreases stype.NumField() - i
